@@ -61,7 +61,7 @@ def generate(seed: int, tier: str) -> Dict[str, Any]:
                             "consumed": r.choice([{}, {}, {"ms": 0, "t1_iters": 0, "t1_pops": 0}, {"ms": 0}, {"ms": 12, "t1_pops": 3}, {"t2_k": 2, "ms": 1}])})
         return {"target": "core", "agents": agents, "policy": r.choice(["round_robin", "fair_queue"]), "mct": r.randint(1, 3),
                 "aging_ms": r.choice([0, 1, 50, 200]), "ops": ops, "rotate_mode": r.choice(["never", "always", "per-op"])}
-    world = E.gen_world(rng.stream("world"), n_agents=r.randint(1, 2), max_graphs=1, odd_ids=False)
+    world = E.gen_world(rng.stream("world"), n_agents=r.randint(1, 2), max_graphs=r.choice([1, 1, 2, 3]), odd_ids=False)
     raw = E.valid_cfg(rng.stream("config"), ["t1", "t2", "t3", "t4"], p=0.3)
     raw.setdefault("t2", {})["sim_threshold"] = r.choice([-1.0, 0.0])
     quantum = r.choice([1, 5, 20, 100])
